@@ -182,6 +182,13 @@ impl SymKeyEncryptedSessionKey {
                 let iv = vec![0u8; sym_algorithm.block_size()];
                 sym_algorithm.decrypt_with_iv_regular(key, &iv, &mut decrypted_key)?;
 
+                // (a v4 SKESK without an encrypted session key has nothing to decrypt:
+                // there the S2K derived key is the session key itself)
+                ensure!(
+                    !decrypted_key.is_empty(),
+                    "v4 SKESK does not contain an encrypted session key"
+                );
+
                 let sym_alg = SymmetricKeyAlgorithm::from(decrypted_key[0]);
                 let key = RawSessionKey::from(&decrypted_key[1..]);
 
